@@ -789,3 +789,27 @@ func substParamDeep(o ssa.Value, h *ssa.Function, call *ssa.Call, depth int) []s
 	}
 	return []ssa.Value{o}
 }
+
+// withHelpers: fn and the same-package functions it reaches through static calls (to the given depth).
+func withHelpers(fn *ssa.Function, depth int) []*ssa.Function {
+	seen := map[*ssa.Function]bool{fn: true}
+	out := []*ssa.Function{fn}
+	var visit func(f *ssa.Function, d int)
+	visit = func(f *ssa.Function, d int) {
+		if d >= depth {
+			return
+		}
+		for _, ff := range WithAnon(f) {
+			for _, c := range helperCalls(ff) {
+				h := samePkgHelper(ff, c)
+				if h != nil && !seen[h] {
+					seen[h] = true
+					out = append(out, h)
+					visit(h, d+1)
+				}
+			}
+		}
+	}
+	visit(fn, 0)
+	return out
+}
